@@ -22,7 +22,49 @@ from props import _subtotals as S
 
 PROPERTY = "C04"
 LEAN_MODULE = "CrCube.Props.C04"
-THEOREMS = []
+THEOREMS = [
+    "CrCube.C04.gauntlet_drops_stale",
+    "CrCube.C04.subtotal_count",
+    "CrCube.C04.subtotal_count_col",
+    "CrCube.C04.subtotal_count_block",
+    "CrCube.C04.subtotal_count_strand",
+    "CrCube.C04.sumListed_congr",
+    "CrCube.C04.sumListed_stale",
+    "CrCube.C04.sumListed_dup",
+    "CrCube.C04.sumListed_eq_sum_ids",
+    "CrCube.C04.intersection_symmetric",
+    "CrCube.C04.signedMerge_symmetric",
+    "CrCube.C04.nan_measures",
+    "CrCube.C04.nan_measures_strand",
+    "CrCube.C04.diff_row_base_nan",
+    "CrCube.C04.diff_col_base_nan",
+    "CrCube.C04.diff_row_proportion_nan",
+    "CrCube.C04.diff_col_proportion_nan",
+    "CrCube.C04.diff_x_diff_nan",
+    "CrCube.C04.valid_counts_diff_nan",
+    "CrCube.C04.diff_count_signed",
+    "CrCube.C04.wave_diff_rows",
+    "CrCube.C04.wave_diff_cols",
+    "CrCube.C04.wave_diff_rows_body",
+    "CrCube.C04.wave_diff_multi_rows",
+    "CrCube.C04.wave_diff_multi_cols",
+    "CrCube.C04.wave_diff_strand",
+    "CrCube.C04.wave_diff_multi_strand",
+    "CrCube.C04.wave_diff_multi_legacy_counterexample",
+    "CrCube.C04.multiLegacy_eq_multi",
+    "CrCube.C04.merge_equiv_rows",
+    "CrCube.C04.merge_equiv_cols",
+    "CrCube.C04.cellwise_rows",
+    "CrCube.C04.cellwise_cols",
+    "CrCube.C04.merge_equiv_proportions_rows",
+    "CrCube.C04.merge_equiv_proportions_cols",
+    "CrCube.C04.merge_equiv_inter_count",
+    "CrCube.C04.merged_count_respondents",
+    "CrCube.C04.merge_equiv_respondents",
+    "CrCube.C04.resolved_wellformed",
+    "CrCube.C04.no_subtrahends_iff",
+    "CrCube.C04.merge_equiv_proportions_catdate_counterexample",
+]
 RULE = ("random designs: rows/cols in {cat, cat_date, ca(items x cats), mr}, optional cat table dimension, "
         "missing categories anywhere; 0-3 insertions per cat-like dimension (sums, differences, 1-1 and multi-term "
         "differences incl. first-element subtrahend, pure-negative, overlapping, duplicate, stale / missing / "
